@@ -51,6 +51,35 @@ def guarded(fn, args, seconds, default):
     return default
 
 
+def replay(prop, a, seed, t0):
+    """--replay <file>: run the recorded input against the current tree; a file without a native input (the verifier
+    gave no counterexample that reproduces natively) names the failed obligation, which is decided again"""
+    global EVIDENCE_DIR, REPLAY_ROOT
+    import contextlib
+    import io
+    import tempfile
+
+    d = load_json(a.replay, {})
+    rc = prop.run_replay(a.replay)
+    if rc == 1 or d.get("witness") and d.get("kind") != "ground":
+        return rc
+    name = d.get("obligation", "")
+    print(f"no native input in {a.replay}: deciding obligation {name} again on the current tree")
+    with tempfile.TemporaryDirectory() as tmp:
+        EVIDENCE_DIR, REPLAY_ROOT = os.path.join(tmp, "evidence"), os.path.join(tmp, "replays")
+        os.makedirs(EVIDENCE_DIR, exist_ok=True)
+        buf = io.StringIO()
+        with contextlib.redirect_stdout(buf):
+            run(prop, a, seed, t0)
+        want = safe(base_name(name)) if d.get("kind") not in ("ground", "bounded", "stale+bounded-search") else safe(name)
+        hit = [ln for ln in buf.getvalue().splitlines() if ln.startswith("VIOLATION") and want in ln]
+    for ln in hit:
+        print(ln.split(" replay=")[0], "(obligation still fails)")
+    if not hit:
+        print("the obligation is discharged on the current tree")
+    return 1 if hit else 0
+
+
 def main(argv=None):
     ap = argparse.ArgumentParser()
     ap.add_argument("prop")
@@ -69,7 +98,7 @@ def main(argv=None):
         mod = importlib.import_module("props." + a.prop)
         prop = mod.PROP
         if a.replay:
-            return prop.run_replay(a.replay)
+            return replay(prop, a, seed, t0)
         return run(prop, a, seed, t0)
     except SystemExit:
         raise
